@@ -131,8 +131,12 @@ def gen_text(cfg):
     cost = cfg["metric"] == 1
     pre, eff = PRE[cfg["pre"]], EFF[cfg["eff"]]
     if cost:  # (nested 'and' in effects is outside the ai-planning grammar: splice into an existing conjunction)
-        inc = f"(increase (total-cost) {[2, 1, '(m ?x)'][cfg.get('cost', 0)]})"
-        eff = f"{eff[:-1]} {inc})" if eff.startswith("(and ") else f"(and {eff} {inc})"
+        # cost: 0-2 first action costs 2 / 1 / (m ?x), the second one 1; 3: the FIRST action has no total-cost effect; 4: the first
+        # costs 1 and the SECOND has none ("some actions cost 1, the others are free" is not plan length)
+        first_cost = [2, 1, "(m ?x)", None, 1][cfg.get("cost", 0)]
+        if first_cost is not None:
+            inc = f"(increase (total-cost) {first_cost})"
+            eff = f"{eff[:-1]} {inc})" if eff.startswith("(and ") else f"(and {eff} {inc})"
     params = ["?x - t ?y - t", "?x ?y - t", "?x - t ?y - s"][plist]
     objects = ["o1 - t o2 - s", "o1 o3 - t o2 - s", "o2 - s o1 o3 - t"][olist]
     cdecl = ["", "(:constants c1 - t)", "(:constants c1 - t c2 - s)"][consts]
@@ -142,7 +146,7 @@ def gen_text(cfg):
     second = ""
     if cfg.get("second"):
         second = ("\n (:action a2 :parameters (?x - t) :precondition (and (not (p ?x)))" +
-                  f" :effect (and (p ?x) (increase (n) 1){' (increase (total-cost) 1)' if cost else ''}))")
+                  f" :effect (and (p ?x) (increase (n) 1){' (increase (total-cost) 1)' if cost and cfg.get('cost', 0) != 4 else ''}))")
     init = INIT[cfg["init"]]
     if consts == 0:
         init = init.replace(" (= (m c1) 1)", "").replace(" (= (m c1) 0)", "").replace(" (= (m c1) 2)", "")
@@ -312,6 +316,8 @@ def shards(tier, seed):
                             kwargs=dict(pre=grp, k=2, rows=_rows(2, seed=gi))))
         out.append(dict(name="variants", fn="h_gen", engine="direct", budget=120,
                         kwargs=dict(pre=[1, 4], k=2, effs=[0, 3], rows=[dict(r, variant=v) for v in (2, 3) for r in _rows(2, seed=v)])))
+        out.append(dict(name="costs-some-free", fn="h_gen", engine="direct", budget=120, query_timeout=60,
+                        kwargs=dict(pre=[0, 4], k=2, effs=[0, 3], rows=[dict(r, metric=1, cost=c, second=1) for c in (3, 4, 1) for r in _rows(2, seed=c)])))
         out.append(dict(name="files", fn="h_file", engine="direct", budget=300, query_timeout=120, kwargs=dict(k=2)))
         for name, kw in FINDINGS.items():
             out.append(dict(name=name, fn="h_gen", engine="direct", budget=120, query_timeout=60, kwargs=dict(k=2, **kw)))
@@ -320,6 +326,8 @@ def shards(tier, seed):
             for pi in grp:
                 out.append(dict(name=f"t-gen-pre{pi:02d}", fn="h_gen", engine="direct", budget=3000, query_timeout=120,
                                 kwargs=dict(pre=[pi], k=3, rows=_rows(30, seed=pi))))
+        out.append(dict(name="t-costs-some-free", fn="h_gen", engine="direct", budget=600, query_timeout=120,
+                        kwargs=dict(pre=[0, 4, 12], k=3, effs=[0, 3, 4], rows=[dict(r, metric=1, cost=c, second=1) for c in (3, 4, 1) for r in _rows(4, seed=c)])))
         out.append(dict(name="t-variants", fn="h_gen", engine="direct", budget=600,
                         kwargs=dict(pre=[1, 4, 12], k=3, rows=[dict(r, variant=v) for v in (1, 2, 3) for r in _rows(4, seed=v)])))
         for name, kw in FINDINGS.items():
